@@ -5,7 +5,7 @@ import os
 from .common import NCPU
 
 PREDS = {
-    "C01": {"Returned", "Range", "InRange", "Monotone", "ClusterUniform", "CountsSum", "Budget", "PosSync"},
+    "C01": {"Returned", "Range", "InRange", "Monotone", "ClusterUniform", "CountsSum", "Budget", "PosSync", "StartCovered"},
     "C12": {"AdvSum", "CrossZero", "BoundsEnclose", "BoundsTight", "LineBounds", "Rotation", "WordSpacing", "LetterSpacing", "SpacingAdvSum"},
 }
 
